@@ -21,6 +21,9 @@ GNone == { <<1,0,0,1>> }
 GC4   == { <<1,0,0,1>>, <<0,-1,1,0>>, <<-1,0,0,-1>>, <<0,1,-1,0>> }
 GC4v  == GC4 \cup { <<-1,0,0,1>>, <<1,0,0,-1>>, <<0,1,1,0>>, <<0,-1,-1,0>> }
 GMx   == { <<1,0,0,1>>, <<-1,0,0,1>> }
+GH3   == { <<1,0,0,1>>, <<-1,-1,1,0>>, <<0,1,-1,-1>> }
+GH6   == GH3 \cup { <<-1,0,0,-1>>, <<0,-1,1,1>>, <<1,1,-1,0>> }
+GH3m  == GH3 \cup { <<-1,0,1,1>>, <<0,-1,-1,0>>, <<1,1,0,-1>> }
 
 RIters == {0 - r : r \in RestartIters}
 MCInit == Init /\ phase = "A" /\ ref = <<>> /\ refRet = {} /\ script = <<>>
